@@ -249,7 +249,7 @@ class Router(object):
             return {'driver_error': 'timeout'}
         if not os.path.exists(out):
             return {'driver_error': 'no events file', 'rc': p.returncode,
-                    'stderr': p.stderr[-1500:], 'stdout': p.stdout[-500:]}
+                    'stderr': p.stderr[-600:], 'stdout': p.stdout[-500:]}
         ev = json.load(open(out))
         os.unlink(out)
         ev['rc'] = p.returncode
